@@ -111,7 +111,7 @@ pub fn topic_filter(rng: &mut Rng, b: &mut Budget) -> TopicFilter {
     let mut s = String::new();
     if rng.chance(1, 12) {
         // look-alikes of the shared-subscription prefix: ordinary (non-shared) filters
-        s.push_str(*rng.pick(&["$sharex/", "$shared/", "$share你/", "$SHARE/", "$shar/", "$share", "$sharé/g/"]));
+        s.push_str(*rng.pick(&["$sharex/", "$shared/", "$share你/", "$SHARE/", "$shar/", "$share", "$sharé/g/", "$queue/", "$local/", "$exclusive/", "$oshare/g/"]));
     } else if rng.chance(1, 4) {
         s.push_str("$share/");
         if rng.chance(1, 8) {
